@@ -172,7 +172,7 @@ package main
 
 // ---- the end-user side (C17, C18, C19) ----
 //@ func proxyHandler props(C17,C18,C19,C07)
-//@   requires s != nil && w != nil && r != nil && r.URL != nil && rwWrites[w] == 0
+//@   requires s != nil && w != nil && r != nil && r.URL != nil && rwWrites[w] == 0 && rwHeader[w] != nil && allocated0(rwHeader[w])
 //@   ghost looked bool = false
 //@   ghost lerr bool = false
 //@   ghost bid string = ""
@@ -191,5 +191,71 @@ package main
 //@     assert[C19:wait-for-own-response] stored && arg1 == s && arg2 == bid && arg3 == requestID
 //@   call reportError
 //@     assert[C19:error-reports-carry-own-id] arg0 == w && arg1 == requestID
+//@   ghost rb []byte
+//@   ghost waited bool = false
+//@   ghost br *bytes.Reader = nil
+//@   ghost bufr *bufio.Reader = nil
+//@   ghost parsed *http.Response = nil
+//@   ghost cached *http.Response = nil
+//@   ghost fromCache bool = false
+//@   call waitForResponse
+//@     do rb = ret0
+//@     do waited = true
+//@   call readCachedResponse
+//@     assert[C19:cache-consulted-for-this-user-and-url] looked && !lerr && r.Method == "GET" && arg1 == sprintf("cache:%q:%q", currentUser.Email, urlString(r.URL)) && arg2 == r
+//@     do cached = ret0
+//@     do fromCache = ret1 == nil
+//@   call bytes.NewReader
+//@     assert[C19:response-parsed-from-the-bytes-waited-for] waited && arg0 == rb
+//@     do br = ret0
+//@   call bufio.NewReader
+//@     assert[C19:response-parsed-from-the-bytes-waited-for-2] arg0 == box(br)
+//@     do bufr = ret0
+//@   call http.ReadResponse
+//@     assert[C19:response-parsed-against-this-request] arg0 == bufr && arg1 == r
+//@     do parsed = ret0
+//@   call cacheResponse
+//@     assert[C19:only-own-200-get-responses-are-cached-under-user-and-url] r.Method == "GET" && parsed != nil && parsed.StatusCode == 200 && arg1 == sprintf("cache:%q:%q", currentUser.Email, urlString(r.URL)) && arg2 == rb
+//@   call forwardResponse
+//@     assert[C19:client-gets-the-response-read-for-this-request] arg1 == requestID && arg2 == w && ((fromCache && !waited && arg3 == cached) || (waited && arg3 == parsed)) && arg3 != nil
 //@   ensures[C17:anonymous-is-401] !looked ==> rwStatus[w] == 401 && rwWrites[w] == 1
 //@   ensures[C18:lookup-failure-is-404] looked && lerr ==> rwStatus[w] == 404 && !stored
+
+// readCachedResponse / cacheResponse: one memcache item per key, parsed against the request in hand.
+//@ func readCachedResponse props(C19,C07)
+//@   requires r != nil
+//@   assigns nothing
+//@   ghost item *memcache.Item = nil
+//@   ghost br *bytes.Reader = nil
+//@   ghost bufr *bufio.Reader = nil
+//@   call memcache.Get
+//@     assert[C19:cache-read-under-the-given-key] arg1 == cacheKey && item == nil
+//@     do item = ret0
+//@   call bytes.NewReader
+//@     assert[C19:cached-bytes-parsed] item != nil && arg0 == item.Value
+//@     do br = ret0
+//@   call bufio.NewReader
+//@     assert[C19:cached-bytes-parsed-2] arg0 == box(br)
+//@     do bufr = ret0
+//@   call http.ReadResponse
+//@     assert[C19:cached-response-parsed-against-this-request] arg0 == bufr && arg1 == r
+//@   ensures[C19:cache-hit-yields-a-response] r1 == nil ==> r0 != nil && r0.Header != nil && fresh(r0.Header)
+//@ func cacheResponse props(C19,C07)
+//@   assigns nothing
+//@   call memcache.Set
+//@     assert[C19:cached-under-the-given-key-with-the-given-bytes] arg1 != nil && arg1.Key == cacheKey && arg1.Value == responseBytes
+
+// forwardResponse: the client gets the status, every header field with the very value list, and the body reader of
+// the response handed in (C19: the served response is the stored one).
+//@ func forwardResponse props(C19,C07)
+//@   requires w != nil && response != nil && rwHeader[w] != nil && response.Header != asHeader(rwHeader[w])
+//@   ghost commits int = 0
+//@   call (http.ResponseWriter).WriteHeader
+//@     assert[C19:status-and-all-headers-relayed] commits == 0 && arg0 == w && arg1 == response.StatusCode && forall_str(k, in(k, response.Header) ==> in(k, asHeader(rwHeader[w])) && asHeader(rwHeader[w])[k] == response.Header[k])
+//@     do commits = commits + 1
+//@   call io.Copy
+//@     assert[C19:body-relayed-from-the-same-response] commits == 1 && arg0 == w && arg1 == response.Body
+//@   loop 1
+//@     assigns mapof(asHeader(rwHeader[w]))
+//@     invariant[C19:fwd-state] response != nil && rwHeader[w] != nil && response.Header != asHeader(rwHeader[w]) && commits == 0
+//@     invariant[C19:fwd-copied] forall_str(k, visited[k] ==> in(k, asHeader(rwHeader[w])) && asHeader(rwHeader[w])[k] == response.Header[k])
